@@ -356,17 +356,17 @@ class Parser:
         if not start_token.value:
             start: Optional[int] = None
         else:
-            start = int(start_token.value)
+            start = self._to_int(start_token)
 
         if not stop_token.value:
             stop: Optional[int] = None
         else:
-            stop = int(stop_token.value)
+            stop = self._to_int(stop_token)
 
         if not step_token.value:
             step: Optional[int] = None
         else:
-            step = int(step_token.value)
+            step = self._to_int(step_token)
 
         return SliceSelector(
             env=self.env,
@@ -403,7 +403,7 @@ class Parser:
                     IndexSelector(
                         env=self.env,
                         token=stream.current,
-                        index=int(stream.current.value),
+                        index=self._to_int(stream.current),
                     )
                 )
             elif stream.current.kind == TOKEN_BARE_PROPERTY:
@@ -527,10 +527,31 @@ class Parser:
 
     def parse_integer_literal(self, stream: TokenStream) -> FilterExpression:
         # Convert to float first to handle scientific notation.
-        return IntegerLiteral(value=int(float(stream.current.value)))
+        try:
+            return IntegerLiteral(value=int(float(stream.current.value)))
+        except (ValueError, OverflowError) as err:
+            raise JSONPathSyntaxError(
+                f"invalid integer literal {stream.current.value[:20]!r}",
+                token=stream.current,
+            ) from err
 
     def parse_float_literal(self, stream: TokenStream) -> FilterExpression:
-        return FloatLiteral(value=float(stream.current.value))
+        try:
+            return FloatLiteral(value=float(stream.current.value))
+        except ValueError as err:
+            raise JSONPathSyntaxError(
+                f"invalid float literal {stream.current.value[:20]!r}",
+                token=stream.current,
+            ) from err
+
+    def _to_int(self, token: Token) -> int:
+        """Convert an index or slice token to an int, or raise a syntax error."""
+        try:
+            return int(token.value)
+        except ValueError as err:
+            raise JSONPathSyntaxError(
+                f"invalid index {token.value[:20]!r}", token=token
+            ) from err
 
     def parse_prefix_expression(self, stream: TokenStream) -> FilterExpression:
         tok = stream.next_token()
